@@ -251,6 +251,14 @@ Definition enum_ok (c : name) (stack : list bool) : bool :=
   | Some k => forallb (fun b => b) stack && Nat.leb k (length stack)
   end.
 
+(* \setcounter / \addtocounter on a list counter are also considered when no open list uses it (LaTeX and plasTeX both
+   set it back to 0 when a list of that level begins); its value is then not observable *)
+Definition enum_unused (c : name) (stack : list bool) : bool :=
+  match enum_index c with
+  | None => false
+  | Some k => Nat.ltb (length stack) k
+  end.
+
 Definition count_true (l : list bool) : nat := length (filter (fun b => b) l).
 
 Definition is_letter (c : Z) : bool := ((65 <=? c) && (c <=? 90)) || ((97 <=? c) && (c <=? 122)).
@@ -332,12 +340,12 @@ Definition spec_event (strict : bool) (cls depth : Z) (e : event) (ss : sstate) 
            end
   | ESet c v =>
       match lookup_name c (s_vals ss) with
-      | Some _ => if enum_ok c (s_lists ss) then Some (with_vals ss (spec_set c v (s_vals ss)), []) else None
+      | Some _ => if enum_ok c (s_lists ss) || enum_unused c (s_lists ss) then Some (with_vals ss (spec_set c v (s_vals ss)), []) else None
       | None => None
       end
   | EAddTo c v =>
       match lookup_name c (s_vals ss) with
-      | Some w => if enum_ok c (s_lists ss) then Some (with_vals ss (spec_set c (w + v) (s_vals ss)), []) else None
+      | Some w => if enum_ok c (s_lists ss) || enum_unused c (s_lists ss) then Some (with_vals ss (spec_set c (w + v) (s_vals ss)), []) else None
       | None => None
       end
   | EStep c =>
